@@ -1,19 +1,21 @@
 #!/bin/bash
-# tools/sweep_seeds.sh [pattern] : apply every seeded change (seeded/<ID>-*/patch.diff) in turn, run the quick check of its own
-# property, revert; writes seeded/SWEEP.md (seed, exit status, first classes).  /repo must be clean and otherwise unused meanwhile.
+# tools/sweep_seeds.sh [pattern...] : apply every seeded change (seeded/<ID>-*/patch.diff) in turn, run the quick check of its own
+# property, revert; appends to seeded/SWEEP.md as it goes (seed, exit status, first classes).  /repo must be clean and otherwise unused.
 cd /verif
-PAT="${1:-*}"
 OUT=/verif/seeded/SWEEP.md
-TMP=$(mktemp)
-echo "| seed | own check | exit | classes reported (first three) |" > "$TMP"
-echo "|---|---|---|---|" >> "$TMP"
-for d in seeded/$PAT/; do
-  name=$(basename "$d"); id="${name%%-*}"
-  [ -f "$d/patch.diff" ] || continue
+if [ ! -s "$OUT" ] || [ "${FRESH:-1}" = "1" ]; then
+  echo "| seed | own check | exit | classes reported (first three) |" > "$OUT"
+  echo "|---|---|---|---|" >> "$OUT"
+fi
+LIST=$(cd seeded && ls -d */ | tr -d / | awk '{ n=$0; r=1; if (n ~ /-r[0-9]/) { r=substr(n, index(n,"-r")+2, 1) } print r, n }' | sort -k1,1n -k2,2 | awk '{print $2}')
+for name in $LIST; do
+  id="${name%%-*}"
+  [ -f "seeded/$name/patch.diff" ] || continue
+  if [ $# -gt 0 ]; then m=0; for p in "$@"; do case "$name" in $p) m=1;; esac; done; [ $m = 1 ] || continue; fi
   res=$(tools/try_seed.sh "$name" "$id" 2>&1)
   rc=$(echo "$res" | grep -oE "^SEED $name: $id=[0-9]+" | grep -oE "[0-9]+$")
+  if echo "$res" | grep -q "does not apply"; then rc="n/a"; fi
   classes=$(echo "$res" | grep -E "^  class:" | sed 's/^  class: //' | head -3 | tr '\n' ';' | sed 's/;$//; s/;/; /g')
-  echo "| $name | $id quick | ${rc:-?} | ${classes:-—} |" >> "$TMP"
+  echo "| $name | $id quick | ${rc:-?} | ${classes:-—} |" >> "$OUT"
   echo "$name -> ${rc:-?} $classes"
 done
-mv "$TMP" "$OUT"
